@@ -338,3 +338,45 @@ func (c *Ctx) constructOf(fn *ssa.Function, ins ssa.Instruction) string {
 	c.mu.Unlock()
 	return n.Construct(fn, ins)
 }
+
+// NamedFunc resolves an anchor by name inside a package whether it is a method (of any type) or a free function:
+// the only source function of that name in the package. A maintainer moving a helper between "method" and "function"
+// keeps the anchor.
+func (c *Ctx) NamedFunc(rel, name string) *ssa.Function {
+	var found []*ssa.Function
+	for _, f := range c.RepoFuncs(rel) {
+		if f.Name() == name && f.Parent() == nil && f.Synthetic == "" {
+			found = append(found, f)
+		}
+	}
+	if len(found) == 1 {
+		return found[0]
+	}
+	return nil
+}
+
+// acceptLoopFunc: the function of a package that contains the Accept call of its server (wherever Run keeps it).
+func (c *Ctx) acceptLoopFunc(rel string) *ssa.Function {
+	var found []*ssa.Function
+	for _, f := range c.RepoFuncs(rel) {
+		for _, b := range f.Blocks {
+			for _, ins := range b.Instrs {
+				if call, ok := ins.(*ssa.Call); ok {
+					m := ""
+					if call.Call.IsInvoke() {
+						m = call.Call.Method.Name()
+					} else if sc := call.Call.StaticCallee(); sc != nil {
+						m = sc.Name()
+					}
+					if (m == "Accept" || m == "AcceptTCP") && (len(found) == 0 || found[len(found)-1] != f) {
+						found = append(found, f)
+					}
+				}
+			}
+		}
+	}
+	if len(found) == 1 {
+		return found[0]
+	}
+	return nil
+}
